@@ -108,10 +108,19 @@ def run(ctx):
     tab_final, drift_any = {}, False
     bv = vp.BatchValidator(ctx, "lockfree", "SeqLockObsTrace", on_reject(ctx))
     cfgs = [(2, 3, 1, 2, 2), (1, 2, 2, 2, 2)] if q else [(2, 3, 1, 2, 3), (1, 3, 2, 2, 2), (3, 4, 1, 3, 2), (9, 3, 2, 2, 2)]
+    # (words, stores, readers, loads, preemption bound); a negative bound marks the runs that ALSO yield after every load:
+    # the reader can then be preempted between its counter load and the (plain) copy of the value, the window in which
+    # the writer publishes and starts to refill the cell that is being copied (seeded change C12/2: no re-check for
+    # word-sized values) - these runs are judged at API level only (their atomic-level trace has extra scheduling
+    # points but the same accesses)
+    cfgs += [(1, 3, 1, 2, -2), (2, 3, 1, 2, -2)] if q else [(1, 4, 1, 3, -3), (1, 3, 2, 2, -2), (2, 4, 1, 2, -3), (3, 3, 1, 2, -2)]
     for (w, k, nr, nl, bound) in cfgs:
-        tag = f"dfs-w{w}-k{k}-r{nr}-l{nl}"
+        after_loads = bound < 0
+        bound = abs(bound)
+        tag = f"dfs-w{w}-k{k}-r{nr}-l{nl}" + ("-al" if after_loads else "")
         trace, summ = drv(ctx, ["--words", w, "--stores", k, "--readers", nr, "--loads", nl, "--mode", "dfs",
-                                "--bound", bound, "--runs", 500 if q else 30000, "--yield-after", "--atoms"], tag)
+                                "--bound", bound, "--runs", (1500 if after_loads else 500) if q else 30000, "--yield-after", "--atoms"]
+                          + (["--yield-after-loads"] if after_loads else []), tag)
         ctx.evaluations += summ["executions"]
         recs = vp.read_ndjson(trace)
         ctx.distinct += len({tuple(r["sched"]) for r in recs if r.get("k") == "end"})
@@ -124,10 +133,12 @@ def run(ctx):
         api = ctx.path("traces", f"{tag}-api.ndjson")
         vp.write_ndjson(api, [r for r in recs2 if r.get("k") not in ("atom", "aux")])
         bv.add(api, (f"scheduled words={w}", summ), summ["executions"])
+        if after_loads:
+            continue
         if drift or (tab_final and tab != tab_final):
             drift_any = True
-            print(f"DRIFT: UnrestrictedAtomic access structure differs from SeqLock2.tla: {drift[:3]} {tab}")
-            ctx.note(f"drift: {drift[:4]}")
+            print(f"DRIFT: UnrestrictedAtomic access structure differs from SeqLock2.tla: {drift[:3]} {tab} (so far: {tab_final})")
+            ctx.note(f"drift: {drift[:4]} {tab} vs {tab_final}")
         else:
             tab_final = tab
             vp.write_ndjson(trace, recs2)
